@@ -141,6 +141,29 @@ def build(case):
     return system
 
 
+def changed_by_write(system, case):
+    """The file is compared with the system as the caller holds it: writing must leave that system as it was (a writer that
+    converts units or fills defaults in place makes the second file, or the file of the other format, state something else)."""
+    for mol, m in zip(system.molecules, case['mols']):
+        if list(mol.nodes) != [k for k, _ in m['atoms']]:
+            return {'what': 'nodes', 'observed': list(mol.nodes)[:10], 'expected': [k for k, _ in m['atoms']][:10]}
+        for k, a in m['atoms']:
+            d = mol.nodes[k]
+            if set(d) != set(a):
+                return {'what': 'attribute names', 'node': k, 'observed': sorted(d), 'expected': sorted(a)}
+            for name, want in a.items():
+                got = d[name]
+                if name in ('position', 'velocity'):
+                    same = np.array_equal(np.asarray(got, dtype=float), np.asarray(want, dtype=float), equal_nan=True)
+                else:
+                    same = type(got) is type(want) and got == want
+                if not same:
+                    return {'what': 'attribute ' + name, 'node': k, 'observed': repr(got)[:80], 'expected': repr(want)[:80]}
+        if {frozenset(e) for e in mol.edges} != {frozenset(e) for e in m['edges']}:
+            return {'what': 'edges'}
+    return None
+
+
 def fits_int(v, width):
     return len(str(v)) <= width
 
@@ -173,6 +196,9 @@ def check_pdb(case, feats):
         mols = vpdb.read_pdb(path, exclude=())
     finally:
         os.remove(path)
+    ch = changed_by_write(system, case)
+    if ch:
+        return ('pdb/system-changed-by-writing', ch)
     total = sum(len(m['atoms']) for m in case['mols'])
     serial_ok = total + len(case['mols']) <= 99999
     if serial_ok or True:
@@ -238,6 +264,9 @@ def check_gro(case, feats):
     finally:
         import shutil
         shutil.rmtree(d, ignore_errors=True)
+    ch = changed_by_write(system, case)
+    if ch:
+        return ('gro/system-changed-by-writing', ch)
     node_order = [a for m in case['mols'] for _, a in m['atoms']]
     id_order = [a for m in case['mols'] for _, a in expect_order(m)]
     g = [dd for _, dd in got.nodes(data=True)]
